@@ -546,6 +546,9 @@ class Evaluator:
             if s.exc is not None:
                 e = s.exc.func if isinstance(s.exc, ast.Call) else s.exc
                 name = ast.unparse(e).split(".")[-1]
+                if isinstance(e, ast.Name) and e.id in self.env and hasattr(self.env[e.id], "exc_name"):
+                    # the class was looked up first: `cls = TABLE.get(status, Default)` ... `raise cls(..)`
+                    name = self.env[e.id].exc_name
             raise EvalRaise(name, s)
         elif isinstance(s, ast.Pass):
             pass
